@@ -139,7 +139,7 @@ EXTRA5 = {
     "C06": " C06.functions-independent: in a module of several functions every function has the signature and the body it has when compiled alone (generator state surviving from one function to the next).",
     "C10": " E2E.process-history (bounded; see C01).",
     "C14": " IR.constant.stays-listed: every constant handed out stays a constant of the function, for all ordered pairs of requests that compare equal in Python (1 / 1.0, 0 / 0.0).",
-    "C16": " C16.e2e.recompiled-library (bounded): a library stored again under the same name is what a client compiled afterwards sees. E2E.process-history.",
+    "C16": " C16.e2e.recompiled-library (bounded): a library stored again under the same name is what a client compiled afterwards sees. C16.e2e.types (bounded): functions that pass a struct (with an array field) through their signatures, split as lib+main / chain / diamond -- a type that reaches a module along two import paths is one type (defect e44e114); C16.types.other-structs-stay-distinct. E2E.process-history.",
     "C20": " A text starting with a byte order mark (offsets count it; the automaton is handed exactly the caller's text). FRONT.rewrite.range and C20.e2e.pipeline (bounded): after rewrite-assign-equal + update-locations every range is a range of the text.",
 }
 for _d in (EXTRA3, EXTRA5):
